@@ -17,6 +17,7 @@ pub fn run(entry: &str, v: &Value) -> Option<Result<String, String>> {
         "fleet_wide_broadcast" => fleet_wide_broadcast(v),
         "peer_broadcast_payloads" => peer_broadcast_payloads(),
         "registry_message_bodies" => registry_message_bodies(),
+        "ws_drain_siblings_survive" => ws_drain_siblings::run(),
         "ws_oversized_notify_keeps_connection" => ws_oversized_notify::run(),
         _ => return None,
     })
@@ -883,5 +884,149 @@ mod ws_oversized_notify {
         rt.block_on(scenario());
         rt.shutdown_background();
         Ok("notifications of 4096 bytes delivered, 4097 / 4098 / 12288 bytes and an oversized broadcast dropped and reported, every reply arrived".into())
+    }
+}
+
+// ---------------------------------------------------------------------------------------------
+// C15: a connection's disconnect callbacks run, and its peer leaves the registry, when THAT
+// connection ends -- not when a sibling accepted by the same graceful-drain listener ends. One
+// scenario: connections A, B under serve_listener_with_graceful_drain; A closes; B must stay
+// registered and served; C connects afterwards and is served; shutdown ends B and C exactly once.
+mod ws_drain_siblings {
+    // Cargo features needed: websocket
+    //! C15 with several concurrent connections under the graceful-drain accept
+    //! loop: each connection's disconnect callbacks run exactly once, *when that
+    //! connection ends*, and its peer stays in the registry until then. One
+    //! connection's clean close must not end its siblings.
+
+    use std::sync::atomic::{AtomicUsize, Ordering};
+    use std::sync::{Arc, Mutex};
+    use std::time::{Duration, Instant};
+
+    use repe::server::Router;
+    use repe::{PeerId, PeerRegistry, WebSocketClient, WebSocketServer};
+    use serde_json::json;
+    use tokio::net::TcpListener;
+    use tokio::sync::oneshot;
+
+    async fn wait_until(what: &str, limit: Duration, cond: impl Fn() -> bool) {
+        let deadline = Instant::now() + limit;
+        while Instant::now() < deadline {
+            if cond() {
+                return;
+            }
+            tokio::time::sleep(Duration::from_millis(5)).await;
+        }
+        panic!("timed out waiting for: {what}");
+    }
+
+    pub async fn scenario() {
+        let peers = PeerRegistry::new();
+        let connected = Arc::new(Mutex::new(Vec::<PeerId>::new()));
+        let disconnected = Arc::new(Mutex::new(Vec::<PeerId>::new()));
+        let disconnect_count = Arc::new(AtomicUsize::new(0));
+
+        let router = Router::new().with_json("/ping", |_| Ok(json!({ "ok": true })));
+        let server = WebSocketServer::new(router)
+            .with_peer_registry(peers.clone())
+            .on_peer_connect({
+                let connected = connected.clone();
+                move |peer| connected.lock().unwrap().push(peer.peer_id())
+            })
+            .on_peer_disconnect({
+                let disconnected = disconnected.clone();
+                let disconnect_count = disconnect_count.clone();
+                move |id| {
+                    disconnected.lock().unwrap().push(id);
+                    disconnect_count.fetch_add(1, Ordering::SeqCst);
+                }
+            });
+
+        let listener = TcpListener::bind(("127.0.0.1", 0)).await.unwrap();
+        let addr = listener.local_addr().unwrap();
+        let (shutdown_tx, shutdown_rx) = oneshot::channel::<()>();
+        let serve = tokio::spawn(async move {
+            server
+                .serve_listener_with_graceful_drain(
+                    listener,
+                    "/repe",
+                    async {
+                        let _ = shutdown_rx.await;
+                    },
+                    Duration::from_secs(2),
+                )
+                .await
+        });
+
+        let url = format!("ws://{addr}/repe");
+        let a = WebSocketClient::connect(&url).await.unwrap();
+        a.call_json("/ping", &json!({})).await.unwrap();
+        let b = WebSocketClient::connect(&url).await.unwrap();
+        b.call_json("/ping", &json!({})).await.unwrap();
+        let (id_a, id_b) = {
+            let ids = connected.lock().unwrap();
+            assert_eq!(ids.len(), 2);
+            (ids[0], ids[1])
+        };
+        assert_eq!(peers.len(), 2);
+
+        // Connection A ends by a clean close. Nothing else happens: no shutdown
+        // was requested and B's client is still attached.
+        drop(a);
+        wait_until("A's disconnect callback", Duration::from_secs(60), || {
+            disconnect_count.load(Ordering::SeqCst) >= 1
+        })
+        .await;
+        tokio::time::sleep(Duration::from_millis(300)).await;
+
+        assert_eq!(
+            disconnected.lock().unwrap().clone(),
+            vec![id_a],
+            "only the connection that ended may have had its disconnect callbacks run"
+        );
+        assert!(peers.get(id_a).is_none(), "A is gone from the registry");
+        assert!(
+            peers.get(id_b).is_some(),
+            "B has not ended, so its peer must still be in the registry"
+        );
+        b.call_json("/ping", &json!({}))
+            .await
+            .expect("B's connection is still being served");
+
+        // A connection accepted afterwards lives until *it* ends, too.
+        let c = WebSocketClient::connect(&url).await.unwrap();
+        c.call_json("/ping", &json!({})).await.unwrap();
+        tokio::time::sleep(Duration::from_millis(200)).await;
+        c.call_json("/ping", &json!({}))
+            .await
+            .expect("C's connection is still being served");
+        let id_c = *connected.lock().unwrap().last().unwrap();
+        assert!(peers.get(id_c).is_some());
+        assert_eq!(disconnect_count.load(Ordering::SeqCst), 1);
+
+        // Now the embedder shuts down: the drain ends B and C, once each.
+        shutdown_tx.send(()).unwrap();
+        let result = tokio::time::timeout(Duration::from_secs(60), serve)
+            .await
+            .expect("graceful drain did not return")
+            .expect("serve task panicked");
+        assert!(result.is_ok());
+        wait_until("B and C disconnected", Duration::from_secs(60), || {
+            disconnect_count.load(Ordering::SeqCst) >= 3
+        })
+        .await;
+        let mut ended = disconnected.lock().unwrap().clone();
+        ended.sort_by_key(|id| id.0);
+        let mut expected = vec![id_a, id_b, id_c];
+        expected.sort_by_key(|id| id.0);
+        assert_eq!(ended, expected, "each connection disconnected exactly once");
+        assert!(peers.is_empty());
+        drop((b, c));
+    }
+    pub fn run() -> Result<String, String> {
+        let rt = tokio::runtime::Builder::new_multi_thread().worker_threads(4).enable_all().build().unwrap();
+        rt.block_on(scenario());
+        rt.shutdown_background();
+        Ok("A ended alone; B and C stayed registered and served until shutdown; three disconnects in all".into())
     }
 }
